@@ -171,12 +171,19 @@ impl ReqSocketBackend {
 //@ end
 
 impl RepSocketBackend {
-    // the real body also notifies the monitor through a parking_lot mutex (outside both tools):
-    // STUB with the assumed effect "the peer's entry is removed, nothing else changes"
-    #[verifier::external_body]
-    fn peer_disconnected(&mut self, peer_id: &PeerIdentity)
-        ensures final(self).peers@ == old(self).peers@.remove(*peer_id),
-    { unimplemented!() }
+    // stand-in for `SocketBackend::monitor(&self) -> &Mutex<..>` (shared borrow of interior-mutable data -> &mut, D7)
+    fn monitor(&mut self) -> (r: &mut Mutex<Option<mpsc::Sender<SocketEvent>>>)
+        ensures *r == old(self).socket_monitor, final(self).socket_monitor == *final(r),
+            final(self).peers == old(self).peers, final(self).fair_queue_inner == old(self).fair_queue_inner, final(self).socket_options == old(self).socket_options,
+    { &mut self.socket_monitor }
+
+//@ item src/rep.rs :: impl MultiPeerBackend for RepSocketBackend / fn peer_disconnected
+//@ name RepSocketBackend::peer_disconnected
+//@ inherent
+//@ receiver-mut
+//@ spec
+//@|        ensures final(self).peers@ == old(self).peers@.remove(*peer_id),
+//@ end
 
 //@ item src/rep.rs :: impl MultiPeerBackend for RepSocketBackend / fn peer_connected
 //@ name RepSocketBackend::peer_connected
